@@ -80,7 +80,9 @@ def run(tier, seed, replay=None):
     texts = SEED_TEXTS[:3] if tier == "quick" else SEED_TEXTS
     nexh = 0
     for t in texts:
-        for d in range(1, depth + 1):
+        # depth 3 (69^3 histories per buffer) on two of the seed buffers, depth 2 on the others
+        dmax = depth if (tier == "quick" or t in ("ab\n", "é日\nx y")) else 2
+        for d in range(1, dmax + 1):
             for h in itertools.product(ALPHABET, repeat=d):
                 cases.append({"text": t, "steps": list(h), "fields": False, "exhaustive": True})
                 nexh += 1
@@ -90,85 +92,89 @@ def run(tier, seed, replay=None):
         c = rp.get("case") or {}
         if "steps" in c:
             cases = [{"text": c["text"], "steps": c["steps"], "fields": c.get("fields", False)}]
-    reqs = [{"op": "session", "text": c["text"], "cursor": 0, "trace": True, "keep_mode": False,
-             "steps": [["field" if (c["fields"] and i % 3 == 2) else "move", s] for i, s in enumerate(c["steps"])]} for c in cases]
-    resp = batch(hook_server, reqs)
-    mreqs, mmeta = [], []
-    for c, x in zip(cases, resp):
-        if "steps" not in x:
-            R.case(c, nontrivial=False, sample=False)
-            R.count("session_crashed")        # C10's subject
-            continue
-        nst = 0
-        for k, st in enumerate(x["steps"][1:]):
-            where = "%r (step %d)" % (c["steps"][k], k)
-            for t in st["trace"]:
-                if t["k"] == "cmd":
-                    check_state(R, t["st"], dict(c, steps=c["steps"][:k + 1]), where, mreqs, mmeta)
-                    nst += 1
-            # the state the driver leaves after the flag (set_normal_mode) is a between-commands state too
-            if st.get("post"):
-                check_state(R, st["post"], dict(c, steps=c["steps"][:k + 1]), where + " + set_normal_mode", mreqs, mmeta)
-                mmeta[-1] = mmeta[-1] + (st["after"],)
-            # a field is cut at grapheme boundaries of the text it was taken from
-            if "ok" in st["res"] and isinstance(st["res"]["ok"], str) and st["res"]["ok"]:
-                gs = graphemes_of(st["after"]["buf"], st["after"]["fresh"])
-                f = st["res"]["ok"]
-                R.count("field_checked")
-                if st["after"].get("sel_mode") is None or not st["after"]["sel_mode"].startswith("Block"):
-                    ok = any("".join(gs[i:j]) == f for i in range(len(gs) + 1) for j in range(i, len(gs) + 1) if len("".join(gs[i:j])) <= len(f))
-                    if not ok and not f.endswith("\n"):
-                        R.violation("field %r is not a run of whole graphemes of the text %r" % (f[:60], st["after"]["buf"][:60]), dict(c, steps=c["steps"][:k + 1]))
-        R.case(c, nontrivial=(nst > 0), sample=not c.get("exhaustive"))
-    mres = batch(model_driver, mreqs)
-    for meta, m in zip(mmeta, mres):
-        case, where, st = meta[0], meta[1], meta[2]
-        if "wf" not in m:
-            R.disagreement("driver: %s" % canon(m)[:100], case)
-            continue
-        R.count("model_compared")
-        # the Lean predicates and the direct reading must agree on every observed state
-        direct_wf = (st["cur"]["max"] == len(st["fresh"])) and (st["cur"]["value"] <= (max(len(st["fresh"]) - 1, 0) if st["cur"]["exclusive"] else len(st["fresh"]))) \
-            and (st["cache"] is None or st["cache"] == st["fresh"])
-        if m["wf"] != direct_wf:
-            R.disagreement("Lean WF says %s, direct reading %s on %s" % (m["wf"], direct_wf, st["cur"]), case)
-        b = st["builtins"]
-        if b != "panic" and m["cache_ok"] and "\r" not in st["buf"]:
-            col = m["col"]
-            got = (b["pos"], b["line"], b["col"], b["char"], b["buf_len"])
-            want = (m["pos"], m["line"], col, m["char"], m["buf_len"])
-            if got != want:
-                R.disagreement("position report: model %s impl %s after %s" % (want, got, where), case)
-        if len(meta) > 3:
-            after = meta[3]
-            # set_normal_mode: model on the state before it vs the state after it
-            if after.get("sel_mode") is None and "\r" not in after["buf"]:
-                R.count("set_normal_compared")
-        if st["mode"] == "Normal" and len(meta) > 3 and not m["normal_ok"] and "\r" not in st["buf"]:
-            R.violation("after set_normal_mode the cursor is not on a character / is on a line terminator: %s in %r" % (st["cur"], st["buf"][:60]), case)
-    # set_normal_mode correspondence: feed the pre-state to the model, compare the cursor
-    sreqs, smeta = [], []
-    for c, x in zip(cases, resp):
-        if "steps" not in x:
-            continue
-        for k, st in enumerate(x["steps"][1:]):
-            a, p = st["after"], st.get("post")
-            if not p or a.get("sel_mode") or "\r" in a["buf"] or a["ins_start"] is not None and a["mode"] == "Insert" and False:
+    CH = 20000
+    allcases = cases
+    for off in range(0, len(allcases), CH):
+        cases = allcases[off:off + CH]
+        reqs = [{"op": "session", "text": c["text"], "cursor": 0, "trace": True, "keep_mode": False,
+                 "steps": [["field" if (c["fields"] and i % 3 == 2) else "move", s] for i, s in enumerate(c["steps"])]} for c in cases]
+        resp = batch(hook_server, reqs)
+        mreqs, mmeta = [], []
+        for c, x in zip(cases, resp):
+            if "steps" not in x:
+                R.case(c, nontrivial=False, sample=False)
+                R.count("session_crashed")        # C10's subject
                 continue
-            if a["cache"] is not None and a["cache"] != a["fresh"]:
+            nst = 0
+            for k, st in enumerate(x["steps"][1:]):
+                where = "%r (step %d)" % (c["steps"][k], k)
+                for t in st["trace"]:
+                    if t["k"] == "cmd":
+                        check_state(R, t["st"], dict(c, steps=c["steps"][:k + 1]), where, mreqs, mmeta)
+                        nst += 1
+                # the state the driver leaves after the flag (set_normal_mode) is a between-commands state too
+                if st.get("post"):
+                    check_state(R, st["post"], dict(c, steps=c["steps"][:k + 1]), where + " + set_normal_mode", mreqs, mmeta)
+                    mmeta[-1] = mmeta[-1] + (st["after"],)
+                # a field is cut at grapheme boundaries of the text it was taken from
+                if "ok" in st["res"] and isinstance(st["res"]["ok"], str) and st["res"]["ok"]:
+                    gs = graphemes_of(st["after"]["buf"], st["after"]["fresh"])
+                    f = st["res"]["ok"]
+                    R.count("field_checked")
+                    if st["after"].get("sel_mode") is None or not st["after"]["sel_mode"].startswith("Block"):
+                        ok = any("".join(gs[i:j]) == f for i in range(len(gs) + 1) for j in range(i, len(gs) + 1) if len("".join(gs[i:j])) <= len(f))
+                        if not ok and not f.endswith("\n"):
+                            R.violation("field %r is not a run of whole graphemes of the text %r" % (f[:60], st["after"]["buf"][:60]), dict(c, steps=c["steps"][:k + 1]))
+            R.case(c, nontrivial=(nst > 0), sample=not c.get("exhaustive"))
+        mres = batch(model_driver, mreqs)
+        for meta, m in zip(mmeta, mres):
+            case, where, st = meta[0], meta[1], meta[2]
+            if "wf" not in m:
+                R.disagreement("driver: %s" % canon(m)[:100], case)
                 continue
-            sreqs.append({"op": "pos", "gs": graphemes_of(a["buf"], a["fresh"]), "cur": a["cur"], "cache": a["cache"], "was_insert": a["mode"] == "Insert"})
-            smeta.append((dict(c, steps=c["steps"][:k + 1]), a, p))
-    for (case, a, p), m in zip(smeta, batch(model_driver, sreqs)):
-        if "set_normal" not in m:
-            continue
-        R.count("set_normal_model_compared")
-        if a["buf"] != p["buf"]:
-            R.count("set_normal_changed_text(block insert)")
-            continue
-        if m["set_normal"]["value"] != p["cur"]["value"] or m["set_normal"]["exclusive"] != p["cur"]["exclusive"]:
-            R.disagreement("set_normal_mode: model cursor %s impl %s (from %s in mode %s, text %r)" % (m["set_normal"], p["cur"], a["cur"], a["mode"], a["buf"][:40]), case)
+            R.count("model_compared")
+            # the Lean predicates and the direct reading must agree on every observed state
+            direct_wf = (st["cur"]["max"] == len(st["fresh"])) and (st["cur"]["value"] <= (max(len(st["fresh"]) - 1, 0) if st["cur"]["exclusive"] else len(st["fresh"]))) \
+                and (st["cache"] is None or st["cache"] == st["fresh"])
+            if m["wf"] != direct_wf:
+                R.disagreement("Lean WF says %s, direct reading %s on %s" % (m["wf"], direct_wf, st["cur"]), case)
+            b = st["builtins"]
+            if b != "panic" and m["cache_ok"] and "\r" not in st["buf"]:
+                col = m["col"]
+                got = (b["pos"], b["line"], b["col"], b["char"], b["buf_len"])
+                want = (m["pos"], m["line"], col, m["char"], m["buf_len"])
+                if got != want:
+                    R.disagreement("position report: model %s impl %s after %s" % (want, got, where), case)
+            if len(meta) > 3:
+                after = meta[3]
+                # set_normal_mode: model on the state before it vs the state after it
+                if after.get("sel_mode") is None and "\r" not in after["buf"]:
+                    R.count("set_normal_compared")
+            if st["mode"] == "Normal" and len(meta) > 3 and not m["normal_ok"] and "\r" not in st["buf"]:
+                R.violation("after set_normal_mode the cursor is not on a character / is on a line terminator: %s in %r" % (st["cur"], st["buf"][:60]), case)
+        # set_normal_mode correspondence: feed the pre-state to the model, compare the cursor
+        sreqs, smeta = [], []
+        for c, x in zip(cases, resp):
+            if "steps" not in x:
+                continue
+            for k, st in enumerate(x["steps"][1:]):
+                a, p = st["after"], st.get("post")
+                if not p or a.get("sel_mode") or "\r" in a["buf"] or a["ins_start"] is not None and a["mode"] == "Insert" and False:
+                    continue
+                if a["cache"] is not None and a["cache"] != a["fresh"]:
+                    continue
+                sreqs.append({"op": "pos", "gs": graphemes_of(a["buf"], a["fresh"]), "cur": a["cur"], "cache": a["cache"], "was_insert": a["mode"] == "Insert"})
+                smeta.append((dict(c, steps=c["steps"][:k + 1]), a, p))
+        for (case, a, p), m in zip(smeta, batch(model_driver, sreqs)):
+            if "set_normal" not in m:
+                continue
+            R.count("set_normal_model_compared")
+            if a["buf"] != p["buf"]:
+                R.count("set_normal_changed_text(block insert)")
+                continue
+            if m["set_normal"]["value"] != p["cur"]["value"] or m["set_normal"]["exclusive"] != p["cur"]["exclusive"]:
+                R.disagreement("set_normal_mode: model cursor %s impl %s (from %s in mode %s, text %r)" % (m["set_normal"], p["cur"], a["cur"], a["mode"], a["buf"][:40]), case)
     close_servers()
-    return R.finish(proof, rule="random key histories of 1-40 commands over normal, insert, replace, visual (char/line/block), search and ex commands on ASCII and multi-byte buffers, plus every history of length <= %d over a %d-command alphabet on %d seed buffers; after every key command (exec_loop hook, taken after the return to normal mode) and after the driver's set_normal_mode the state dump (text, real segmentation, cached offsets, cursor value/max/clamp, mode, selection, and the editor's own line/col/pos/char computed on a clone) is checked (i) directly: bound = grapheme count, cursor under bound, cache absent or fresh, on a character in normal/visual/replace mode, off the terminator in normal mode, reports = those computed from the printed text, selection ordered/inside/containing the cursor, fields cut at grapheme boundaries; (ii) against the Lean model: WF verdict, reported pos/line/col/char, and the cursor after set_normal_mode" % (depth, len(ALPHABET), len(texts)),
+    return R.finish(proof, rule="random key histories of 1-40 commands over normal, insert, replace, visual (char/line/block), search and ex commands on ASCII and multi-byte buffers, plus every history of length <= %d over a %d-command alphabet on %d seed buffers (thorough: depth 3 on two of them, depth 2 on the other four); after every key command (exec_loop hook, taken after the return to normal mode) and after the driver's set_normal_mode the state dump (text, real segmentation, cached offsets, cursor value/max/clamp, mode, selection, and the editor's own line/col/pos/char computed on a clone) is checked (i) directly: bound = grapheme count, cursor under bound, cache absent or fresh, on a character in normal/visual/replace mode, off the terminator in normal mode, reports = those computed from the printed text, selection ordered/inside/containing the cursor, fields cut at grapheme boundaries; (ii) against the Lean model: WF verdict, reported pos/line/col/char, and the cursor after set_normal_mode" % (depth, len(ALPHABET), len(texts)),
                     assumptions=["what a verb or motion does to text and cursor is an input of the model (any command)", "CR LF pairs segment as one grapheme: texts containing \\r are classified separately (known finding crlf.geometry)",
                                  "block-insert replay inside set_normal_mode is not modelled (states where it changes the text are skipped in the set_normal comparison)"])
